@@ -60,6 +60,40 @@ type verifC44Backend struct {
 	gate            *verifC44Gate
 	failIndexUpload bool
 	log             *[]string
+	// opFault: injected fault of a non-download method (by Go method name): 0 = healthy, n > 0 = the next n calls
+	// fail (throttling / 5xx / network), -1 = every call fails until cleared.  A failing call changes nothing.
+	opFault map[string]int
+	// answers: what THIS backend answered to each non-download call of the current op ("ok", "err", "list:…")
+	answers *[]string
+}
+
+// opGate notes the call, then applies context and the injected method fault.
+func (b *verifC44Backend) opGate(ctx context.Context, method string) error {
+	b.note(method)
+	if err := ctx.Err(); err != nil {
+		return b.answer(err, "")
+	}
+	if n := b.opFault[method]; n != 0 {
+		if n > 0 {
+			b.opFault[method] = n - 1
+		}
+		return b.answer(errVerifC44Injected, "")
+	}
+	return nil
+}
+
+// answer records what this backend returns to the current call.
+func (b *verifC44Backend) answer(err error, okText string) error {
+	if b.answers != nil {
+		if err != nil {
+			*b.answers = append(*b.answers, "err")
+		} else if okText != "" {
+			*b.answers = append(*b.answers, okText)
+		} else {
+			*b.answers = append(*b.answers, "ok")
+		}
+	}
+	return err
 }
 
 // readGate applies context, slow/fail behaviour and the injected fault of a download of key.
@@ -96,35 +130,31 @@ func (b *verifC44Backend) note(m string) {
 	}
 }
 func (b *verifC44Backend) UploadSegment(ctx context.Context, key string, body []byte) error {
-	b.note("UploadSegment")
-	if err := ctx.Err(); err != nil {
+	if err := b.opGate(ctx, "UploadSegment"); err != nil {
 		return err
 	}
-	return b.inner.UploadSegment(ctx, key, body)
+	return b.answer(b.inner.UploadSegment(ctx, key, body), "")
 }
 func (b *verifC44Backend) UploadIndex(ctx context.Context, key string, body []byte) error {
-	b.note("UploadIndex")
-	if err := ctx.Err(); err != nil {
+	if err := b.opGate(ctx, "UploadIndex"); err != nil {
 		return err
 	}
 	if b.failIndexUpload {
-		return errVerifC44Injected
+		return b.answer(errVerifC44Injected, "")
 	}
-	return b.inner.UploadIndex(ctx, key, body)
+	return b.answer(b.inner.UploadIndex(ctx, key, body), "")
 }
 func (b *verifC44Backend) DeleteSegment(ctx context.Context, key string) error {
-	b.note("DeleteSegment")
-	if err := ctx.Err(); err != nil {
+	if err := b.opGate(ctx, "DeleteSegment"); err != nil {
 		return err
 	}
-	return b.inner.DeleteSegment(ctx, key)
+	return b.answer(b.inner.DeleteSegment(ctx, key), "")
 }
 func (b *verifC44Backend) DeleteIndex(ctx context.Context, key string) error {
-	b.note("DeleteIndex")
-	if err := ctx.Err(); err != nil {
+	if err := b.opGate(ctx, "DeleteIndex"); err != nil {
 		return err
 	}
-	return b.inner.DeleteIndex(ctx, key)
+	return b.answer(b.inner.DeleteIndex(ctx, key), "")
 }
 func (b *verifC44Backend) DownloadSegment(ctx context.Context, key string, rng *storage.ByteRange) ([]byte, error) {
 	b.note("DownloadSegment")
@@ -141,19 +171,49 @@ func (b *verifC44Backend) DownloadIndex(ctx context.Context, key string) ([]byte
 	return b.inner.DownloadIndex(ctx, key)
 }
 func (b *verifC44Backend) ListSegments(ctx context.Context, prefix string) ([]storage.S3Object, error) {
-	b.note("ListSegments")
-	if err := ctx.Err(); err != nil {
+	if err := b.opGate(ctx, "ListSegments"); err != nil {
 		return nil, err
 	}
-	return b.inner.ListSegments(ctx, prefix)
+	objs, err := b.inner.ListSegments(ctx, prefix)
+	if err != nil {
+		return nil, b.answer(err, "")
+	}
+	_ = b.answer(nil, "list:"+verifC44Listing(objs))
+	return objs, nil
 }
 func (b *verifC44Backend) EnsureBucket(ctx context.Context) error {
-	b.note("EnsureBucket")
-	if err := ctx.Err(); err != nil {
+	if err := b.opGate(ctx, "EnsureBucket"); err != nil {
 		return err
 	}
-	return b.inner.EnsureBucket(ctx)
+	return b.answer(b.inner.EnsureBucket(ctx), "")
 }
+
+// verifC44Listing is the canonical form of a listing: id:size sorted by id (-1 = not one of the harness keys).
+func verifC44Listing(objs []storage.S3Object) string {
+	type kv struct {
+		k    int
+		size int64
+	}
+	var kvs []kv
+	for _, o := range objs {
+		id := -1
+		for k := 0; k < 64; k++ {
+			if verifC44SegKey(k) == o.Key {
+				id = k
+			}
+		}
+		kvs = append(kvs, kv{id, o.Size})
+	}
+	sort.Slice(kvs, func(i, j int) bool { return kvs[i].k < kvs[j].k })
+	var items []string
+	for _, e := range kvs {
+		items = append(items, fmt.Sprintf("%d:%d", e.k, e.size))
+	}
+	return strings.Join(items, ",")
+}
+
+var verifC44Methods = map[string]bool{"UploadSegment": true, "UploadIndex": true, "DeleteSegment": true, "DeleteIndex": true,
+	"ListSegments": true, "EnsureBucket": true}
 
 func verifC44SegKey(k int) string {
 	return fmt.Sprintf("ns/topic-%d/%d/segment-%020d.kfs", k/4, k%2, (k%4)*100)
@@ -243,6 +303,95 @@ func verifC44OrphanScenario() string {
 		flush1, st(errO), restored, res.BaseOffset, flush2, got, want)
 }
 
+// verifC44RestoreScenario drives the real PartitionLog.RestoreFromS3 through the real dual client while the replica
+// LAGS (it holds segment 0..4 with its index, the primary also holds segment 5..11) and the primary's ListSegments
+// fails once (a1 = first attempt, a2 = the caller's retry), fails persistently (b1, b2) or is healthy (c).
+// Every attempt must either fail or restore the primary's last offset (want); rbad = non-download calls that
+// reached the replica.
+func verifC44RestoreScenario() string {
+	ctx := context.Background()
+	var calls []string
+	pri := &verifC44Backend{tag: "w", inner: storage.NewMemoryS3Client(), failing: map[string]bool{}, opFault: map[string]int{}, log: &calls}
+	rep := &verifC44Backend{tag: "r", inner: storage.NewMemoryS3Client(), failing: map[string]bool{}, opFault: map[string]int{}, log: &calls}
+	cfg := storage.PartitionLogConfig{
+		Buffer:  storage.WriteBufferConfig{MaxBytes: 1 << 20, FlushInterval: time.Hour},
+		Segment: storage.SegmentWriterConfig{IndexIntervalMessages: 1},
+	}
+	mk := func(records int32, marker byte) storage.RecordBatch {
+		data := make([]byte, 70)
+		binary.BigEndian.PutUint32(data[23:27], uint32(records-1))
+		binary.BigEndian.PutUint32(data[57:61], uint32(records))
+		data[12] = marker
+		b, _ := storage.NewRecordBatchFromBytes(data)
+		return b
+	}
+	newLog := func(c storage.S3Client) *storage.PartitionLog {
+		return storage.NewPartitionLog("ns", "orders", 0, 0, c, nil, cfg, nil, nil, nil)
+	}
+	writer := newLog(pri.inner)
+	if _, err := writer.AppendBatch(ctx, mk(5, 0x61)); err != nil {
+		return "restore setup=append1-err"
+	}
+	if err := writer.Flush(ctx); err != nil {
+		return "restore setup=flush1-err"
+	}
+	// replication catches up on everything written so far
+	objs, err := pri.inner.ListSegments(ctx, "ns/orders/0/")
+	if err != nil || len(objs) != 1 {
+		return "restore setup=list-err"
+	}
+	for _, o := range objs {
+		if d, e := pri.inner.DownloadSegment(ctx, o.Key, nil); e == nil {
+			_ = rep.inner.UploadSegment(ctx, o.Key, d)
+		}
+		ik := strings.TrimSuffix(o.Key, ".kfs") + ".index"
+		if d, e := pri.inner.DownloadIndex(ctx, ik); e == nil {
+			_ = rep.inner.UploadIndex(ctx, ik, d)
+		}
+	}
+	// the next segment reaches the primary only: the replica lags
+	if _, err := writer.AppendBatch(ctx, mk(7, 0x62)); err != nil {
+		return "restore setup=append2-err"
+	}
+	if err := writer.Flush(ctx); err != nil {
+		return "restore setup=flush2-err"
+	}
+	want, err := newLog(pri.inner).RestoreFromS3(ctx)
+	if err != nil {
+		return "restore setup=primary-restore-err"
+	}
+	replicaAlone, _ := newLog(rep.inner).RestoreFromS3(ctx)
+	attempt := func() (res string) {
+		defer func() {
+			if r := recover(); r != nil {
+				res = "panic"
+			}
+		}()
+		last, err := newLog(newDualS3Client(pri, rep)).RestoreFromS3(ctx)
+		if err != nil {
+			return "err"
+		}
+		return strconv.FormatInt(last, 10)
+	}
+	pri.opFault["ListSegments"] = 1
+	a1, a2 := attempt(), attempt()
+	pri.opFault["ListSegments"] = -1
+	b1, b2 := attempt(), attempt()
+	pri.opFault["ListSegments"] = 0
+	c := attempt()
+	var rbad []string
+	for _, cl := range calls {
+		if strings.HasPrefix(cl, "r.") && cl != "r.DownloadSegment" && cl != "r.DownloadIndex" {
+			rbad = append(rbad, cl)
+		}
+	}
+	rb := "-"
+	if len(rbad) > 0 {
+		rb = strings.Join(rbad, ",")
+	}
+	return fmt.Sprintf("restore want=%d replica=%d a1=%s a2=%s b1=%s b2=%s c=%s rbad=%s", want, replicaAlone, a1, a2, b1, b2, c, rb)
+}
+
 // verifC44SlowScenario: four reads run concurrently against replicas that are slow to fail / slow to
 // answer (2.5 s — longer than any plausible replica timeout), under a caller context of 20 s.  Each
 // result is printed next to what the primary alone answers.
@@ -307,12 +456,14 @@ func init() {
 	}
 	ctx := context.Background()
 	w := bufio.NewWriter(os.Stdout)
-	var calls []string
+	var calls, pans []string
 	var pri, rep *verifC44Backend
 	var dual storage.S3Client
 	reset := func() {
-		pri = &verifC44Backend{tag: "w", inner: storage.NewMemoryS3Client(), failing: map[string]bool{}, mode: map[string]verifC44Mode{}, log: &calls}
-		rep = &verifC44Backend{tag: "r", inner: storage.NewMemoryS3Client(), failing: map[string]bool{}, mode: map[string]verifC44Mode{}, log: &calls}
+		pri = &verifC44Backend{tag: "w", inner: storage.NewMemoryS3Client(), failing: map[string]bool{}, mode: map[string]verifC44Mode{}, log: &calls,
+			opFault: map[string]int{}, answers: &pans}
+		rep = &verifC44Backend{tag: "r", inner: storage.NewMemoryS3Client(), failing: map[string]bool{}, mode: map[string]verifC44Mode{}, log: &calls,
+			opFault: map[string]int{}}
 		dual = newDualS3Client(pri, rep)
 	}
 	reset()
@@ -327,6 +478,7 @@ func init() {
 			continue
 		}
 		calls = calls[:0]
+		pans = pans[:0]
 		out := func() (res string) {
 			defer func() {
 				if r := recover(); r != nil {
@@ -334,6 +486,15 @@ func init() {
 				}
 			}()
 			withCalls := func(s string) string { return s + " calls=" + strings.Join(calls, ",") }
+			// result of a write/list/ensure call + backend calls + what the primary backend itself answered to this op
+			// ("none" when the primary was not asked)
+			withPans := func(s string) string {
+				p := "none"
+				if len(pans) > 0 {
+					p = strings.Join(pans, "+")
+				}
+				return withCalls(s) + " pans=" + p
+			}
 			key := func(i int) (int, bool) {
 				if len(f) <= i {
 					return 0, false
@@ -362,6 +523,23 @@ func init() {
 				return verifC44OrphanScenario()
 			case "slow":
 				return verifC44SlowScenario()
+			case "restore":
+				return verifC44RestoreScenario()
+			case "popfail", "ropfail":
+				// popfail|ropfail <Method> none|once|always
+				if len(f) != 3 || !verifC44Methods[f[1]] {
+					return "bad-op"
+				}
+				n, ok := map[string]int{"none": 0, "once": 1, "always": -1}[f[2]]
+				if !ok {
+					return "bad-op"
+				}
+				if f[0] == "popfail" {
+					pri.opFault[f[1]] = n
+				} else {
+					rep.opFault[f[1]] = n
+				}
+				return "ok"
 			case "rmode":
 				// rmode k ok|fail|slowok|slowfail|hang [ms]
 				k, ok1 := key(1)
@@ -469,18 +647,18 @@ func init() {
 					return "bad-op"
 				}
 				if f[0] == "upseg" {
-					return withCalls(errStr(dual.UploadSegment(ctx, verifC44SegKey(k), b)))
+					return withPans(errStr(dual.UploadSegment(ctx, verifC44SegKey(k), b)))
 				}
-				return withCalls(errStr(dual.UploadIndex(ctx, verifC44IdxKey(k), b)))
+				return withPans(errStr(dual.UploadIndex(ctx, verifC44IdxKey(k), b)))
 			case "delseg", "delidx":
 				k, ok1 := key(1)
 				if !ok1 || len(f) != 2 {
 					return "bad-op"
 				}
 				if f[0] == "delseg" {
-					return withCalls(errStr(dual.DeleteSegment(ctx, verifC44SegKey(k))))
+					return withPans(errStr(dual.DeleteSegment(ctx, verifC44SegKey(k))))
 				}
-				return withCalls(errStr(dual.DeleteIndex(ctx, verifC44IdxKey(k))))
+				return withPans(errStr(dual.DeleteIndex(ctx, verifC44IdxKey(k))))
 			case "replseg":
 				k, ok1 := key(1)
 				if !ok1 || len(f) != 2 {
@@ -551,30 +729,11 @@ func init() {
 			case "list":
 				objs, err := dual.ListSegments(ctx, "ns/")
 				if err != nil {
-					return withCalls("err")
+					return withPans("err")
 				}
-				var items []string
-				type kv struct {
-					k    int
-					size int64
-				}
-				var kvs []kv
-				for _, o := range objs {
-					id := -1
-					for k := 0; k < 64; k++ {
-						if verifC44SegKey(k) == o.Key {
-							id = k
-						}
-					}
-					kvs = append(kvs, kv{id, o.Size})
-				}
-				sort.Slice(kvs, func(i, j int) bool { return kvs[i].k < kvs[j].k })
-				for _, e := range kvs {
-					items = append(items, fmt.Sprintf("%d:%d", e.k, e.size))
-				}
-				return withCalls("list " + strings.Join(items, ","))
+				return withPans("list " + verifC44Listing(objs))
 			case "ensure":
-				return withCalls(errStr(dual.EnsureBucket(ctx)))
+				return withPans(errStr(dual.EnsureBucket(ctx)))
 			}
 			return "bad-op"
 		}()
